@@ -107,6 +107,19 @@ class Tmatrix(ScatteringTheory):
         mrr = scatterer.n.real/medium_index
         mri = scatterer.n.imag/medium_index
         eps = rxy/rz
+        # The Fortran code computes Bessel functions of m*k*r over the
+        # particle's surface in a work array of 1200 terms, without checking
+        # its bounds; refuse particles that would overrun it. The surface is
+        # the one the Fortran code derives from axi and eps (RSP1, RSP3).
+        if iscyl:
+            half_length = axi * (2 / (3 * eps**2))**(1/3.)
+            r_max = np.hypot(half_length, half_length * eps)
+        else:
+            r_max = axi * eps**(1/3.) * max(1, 1 / eps)
+        order = abs(complex(mrr, mri)) * medium_wavevec * r_max
+        if order + 4 * order**(1/3.) + 1.2 * np.sqrt(order) + 5 > 1200:
+            raise InvalidScatterer(
+                scatterer, "scatterer too large for the T-matrix code")
         NP = -1 - int(iscyl)
         ndgs = 5
         alpha = scatterer.rotation[2] * 180 / np.pi
